@@ -13,19 +13,30 @@ namespace c41 {
     std::vector<Sym> e0, e1, s0, s1, mp, isv0, isv1, esv0, esv1, K;
     Sym rdt = Sym(1), rho = Sym(1), sos = Sym(0), se0 = Sym(0), se1 = Sym(0), de0 = Sym(0), de1 = Sym(0);
     mfront_gb_BehaviourData d;
-    /*! \param ng: number of gradient/flux components; nmp, nisv, nesv: sizes */
-    Data(const int ng, const int nmp, const int nisv, const int nesv)
+    //! default shadow values of the gradient/flux inputs (family "eto", "deto", "sig0")
+    static double default_shadow(const std::string& f, const int i) {
+      if (f == "eto") return 0.011 * (i + 1) * (i % 2 ? -1 : 1);
+      if (f == "deto") return 0.003 * (i + 2) * (i % 3 ? 1 : -1);
+      if (f == "dt") return 0.5;
+      return 3.5 * (i + 1);
+    }
+    static Sym in(const std::string& f, const int i, double (*sh)(const std::string&, int)) {
+      return verif::scalar_input(f + std::to_string(i), sh(f, i));
+    }
+    /*! \param ng: number of gradient/flux components; nmp, nisv, nesv: sizes; sh: shadow values */
+    Data(const int ng, const int nmp, const int nisv, const int nesv, double (*sh)(const std::string&, int) = default_shadow)
         : e0(ng), e1(ng), s0(ng), s1(ng), mp(nmp), isv0(nisv + 1), isv1(nisv + 1), esv0(nesv + 1), esv1(nesv + 1), K(ng * ng + 4) {
       for (int i = 0; i != ng; ++i) {
-        e0[i] = verif::make_input("eto" + std::to_string(i), 0.011 * (i + 1) * (i % 2 ? -1 : 1));
-        e1[i] = e0[i] + verif::make_input("deto" + std::to_string(i), 0.003 * (i + 2) * (i % 3 ? 1 : -1));
-        s0[i] = verif::make_input("sig0_" + std::to_string(i), 3.5 * (i + 1));
+        e0[i] = in("eto", i, sh);
+        e1[i] = e0[i] + in("deto", i, sh);
+        s0[i] = in("sa", i, sh);
         s1[i] = verif::make_input("gs" + std::to_string(i), 1.e3 + i);
       }
       for (int i = 0; i != nisv; ++i) isv1[i] = verif::make_input("gv" + std::to_string(i), 2.e3 + i);
-      for (auto& k : K) k = verif::make_input("gK", 3.e3);
+      const Sym gK = verif::make_input("gK", 3.e3);
+      for (auto& k : K) k = gK;
       d.error_message = nullptr;
-      d.dt = verif::scalar_input("dt", 0.5);
+      d.dt = verif::scalar_input("dt", sh("dt", 0));
       d.K = K.data();
       d.rdt = &rdt;
       d.speed_of_sound = &sos;
